@@ -678,27 +678,27 @@ theorem lastOf_fields (as : List Name) (k i : Nat) (a : Name) (acc : Option Memb
 end Aux
 
 /-- "the last binding of a name wins": in the class body the message template prints, the name of the i-th
-    field's attribute ends up bound to that field's declaration — also when a nested class or the `raw_page`
-    property (printed BEFORE the fields) uses the same name — unless the attribute is `done` and the message has
-    an extended-operation status field (the `done` property is printed AFTER the fields). -/
+    field's attribute ends up bound to that field's declaration, WHATEVER the field is called — also when a
+    nested class or either helper property (`raw_page`, `done`; both printed BEFORE the fields) uses the name. -/
 theorem field_kept (nested attrs : List Name) (hasStatus : Bool) (a : Name) (i : Nat)
-    (hnd : attrs.Nodup) (hi : attrs[i]? = some a) (hdone : ¬ (hasStatus = true ∧ a = "done".toList)) :
+    (hnd : attrs.Nodup) (hi : attrs[i]? = some a) :
     lookupMember (classDict nested attrs hasStatus) a = some (.field i) := by
   unfold classDict classBody
-  rw [lookup_foldl, lastOf_append, lastOf_append]
-  rw [lastOf_fields attrs 0 i a _ hi (not_mem_drop_of_nodup attrs i a hnd hi)]
-  cases hasStatus with
-  | false => simp [lastOf]
-  | true =>
-    have : ¬ ['d', 'o', 'n', 'e'] = a := fun h => hdone ⟨rfl, h.symm⟩
-    simp [lastOf, List.foldl, this]
+  rw [lookup_foldl, lastOf_append, lastOf_fields attrs 0 i a _ hi (not_mem_drop_of_nodup attrs i a hnd hi), Nat.zero_add]
 
 /-- a field called `raw_page` of a paginated message (one that also has `next_page_token`, so that the pager
     helper property of the same name is printed) keeps its declaration -/
 theorem raw_page_field_kept (nested attrs : List Name) (hasStatus : Bool) (i : Nat)
     (hnd : attrs.Nodup) (hi : attrs[i]? = some "raw_page".toList) :
     lookupMember (classDict nested attrs hasStatus) "raw_page".toList = some (.field i) :=
-  field_kept nested attrs hasStatus _ i hnd hi (by intro h; exact absurd h.2 (by decide))
+  field_kept nested attrs hasStatus _ i hnd hi
+
+/-- a field called `done` of an extended-operation status message (the `done` helper property is printed) keeps
+    its declaration (violated before 4ad018c: the helper was printed after the fields) -/
+theorem done_field_kept_general (nested attrs : List Name) (i : Nat)
+    (hnd : attrs.Nodup) (hi : attrs[i]? = some "done".toList) :
+    lookupMember (classDict nested attrs true) "done".toList = some (.field i) :=
+  field_kept nested attrs true _ i hnd hi
 
 /-- a kept declaration is among the fields proto-plus's metaclass finds -/
 theorem kept_field_seen (d : ClassDict) (a : Name) (i : Nat) (h : lookupMember d a = some (.field i)) :
@@ -715,12 +715,12 @@ theorem kept_field_seen (d : ClassDict) (a : Name) (i : Nat) (h : lookupMember d
       simp only [fieldsSeen, List.filterMap_cons] at this ⊢
       cases v <;> simp_all
 
-/-- the code VIOLATES the property here (finding descriptor:missing-field:done-property): a message with an
-    extended-operation status field and a field called `done` — the helper property replaces the declaration,
-    proto-plus sees only the other field -/
-theorem done_field_lost_counterexample :
-    lookupMember (classDict [] ["status".toList, "done".toList] true) "done".toList = some .done ∧
-    fieldsSeen (classDict [] ["status".toList, "done".toList] true) = [0] := by decide
+/-- regression (the input of the former finding descriptor:missing-field:done-property, repaired by 4ad018c): a
+    message with an extended-operation status field and a field called `done` — the declaration stays, proto-plus
+    sees both fields; the name `done` keeps the position of its first binding (the helper), i.e. comes first -/
+theorem done_field_kept :
+    lookupMember (classDict [] ["status".toList, "done".toList] true) "done".toList = some (.field 1) ∧
+    fieldsSeen (classDict [] ["status".toList, "done".toList] true) = [1, 0] := by decide
 
 example : lookupMember (classDict ["Inner".toList] ["next_page_token".toList, "items".toList, "raw_page".toList] false)
     "raw_page".toList = some (.field 2) ∧
